@@ -22,4 +22,6 @@ Asc(S) == IF S = {} THEN <<>> ELSE LET m == CHOOSE x \in S : \A y \in S : x <= y
 Process(dst, outgoing) == /\ called' = Asc(Idx(dst, outgoing))      \* each matching callback exactly once, raising or not
                           /\ devices' = TRUE                         \* device processing is never prevented
                           /\ UNCHANGED cbs
+\* an outgoing telegram the interface refused (CommunicationError / missing confirmation) is dropped: it was not processed - no callback, no device
+Dropped == called' = <<>> /\ devices' = FALSE /\ UNCHANGED cbs
 =============================================================================
